@@ -26,8 +26,16 @@ CFG = dict(
     thorough_seeds=3,
     level="proof",
     assumptions=[
-        "compression libraries (gzip, snappy, lz4, zstd) are parameters of the model; theorems assume decompress(compress(x)) = x "
-        "on the payloads involved; the harness feeds the model the library's actual answers (including its failures)",
+        "compression libraries (gzip, snappy, lz4, zstd) and the code around them in compress.go/decompress.go are an abstract "
+        "invertible pair in the model: theorems assume decompress(compress(x)) = x on the payloads involved. The tie for exactly that "
+        "assumption is differential only: (a) the harness feeds the model the library's actual answers (including its failures) for random "
+        "records / batches / wrapper messages, and (b) the `xcase` stream runs decode(encode(v)) = v on the real code for every codec "
+        "(none, gzip default/1/9 - all levels 1..9 in thorough -, snappy, lz4, zstd) x both framings (record batch v2; legacy compressed "
+        "wrapper magic 0 and 1) x payload classes at the extremes of compressibility: one byte repeated (32 KiB, 256 KiB, 1000 KiB in one "
+        "record, 300 KiB over 3000 records), a short pattern repeated (one record / 500 records), zeros with a few random bytes, "
+        "incompressible random bytes (one record / 700 records), tiny payloads; thorough adds random shape/size/count draws up to 900 KiB. "
+        "Checked: records, keys, values, headers, counts, no partial/overflow flags, re-encoded bytes identical. Not covered: payloads "
+        "above ~1 MiB, other compression ratios than these classes reach (about 1000:1 for deflate)",
         "encoding/binary (PutUvarint/Uvarint/PutVarint/Varint, BigEndian) and hash/crc32 are re-implemented in the model "
         "(bitwise CRC, fuel-10 varint) and tied by byte-level correspondence, not by translation",
         "protocol bodies are tied to the schema theorems through the call sequence their real encode/decode make on the "
